@@ -22,7 +22,11 @@ def run(pid, tier, seed, cov, violations, notes, V):
             if "not found" in p.stdout or "no asm! block" in p.stdout:
                 notes.append("NOTE %s: no asm! block to check (%s)" % (fname, p.stdout.strip()))
                 continue
-            raise V.ToolError("cannot decide: %s is outside the interpreter's subset: %s" % (fname, p.stdout.strip()))
+            # an asm! block the interpreter cannot read (another instruction set, other addressing modes): the block is not
+            # model-checked; the property is still decided on the recorded traces (values) and under the guard allocator (memory)
+            notes.append("NOTE %s: asm! block outside the interpreter's subset, not model-checked (%s); decided by trace validation only" % (fname, p.stdout.strip()))
+            cov.setdefault("extra", {}).setdefault("asm_not_modelled", []).append(fname)
+            continue
         if p.returncode != 0:
             raise V.ToolError("asm extraction failed: " + p.stdout)
         cov.setdefault("extra", {}).setdefault("asm_extracted", []).append(p.stdout.strip())
